@@ -226,6 +226,10 @@ fn main() {
             let _ = prctl(41 /* PR_SET_THP_DISABLE */, 1, 0, 0, 0);
         }
     }
+    // panics inside cedar are caught and reported as violations; keep stderr quiet
+    if std::env::var("VERIF_SHOW_PANICS").is_err() {
+        std::panic::set_hook(Box::new(|_| {}));
+    }
     let args: Vec<String> = std::env::args().collect();
     if args.get(1).map(|s| s.as_str()) == Some("worker") && std::env::var("VERIF_KEEP_MALLOC").is_err() {
         // a worker process has one active thread at a time: one arena, never trimmed, so that a
